@@ -57,6 +57,8 @@ def gen_history(seed):
                 ops.append(["deallocate", r.randrange(5)])
             elif k < 0.9:
                 ops.append(["copy", r.choice(["continue_on_copy", "continue_on_original"])])
+            elif k < 0.95 and any(o[0] == "copy" for o in ops):
+                ops.append(["switch"])
             else:
                 ops.append(["deepcopy"])
         else:
@@ -71,9 +73,11 @@ def gen_history(seed):
                 ops.append(["load", r.randrange(2), r.randrange(nstrat), r.randrange(nworkers)])
             elif k < 0.84:
                 ops.append(["evict", r.randrange(2), r.randrange(nworkers)])
-            elif k < 0.92:
+            elif k < 0.90:
                 ops.append(["copy", r.choice(["continue_on_copy", "continue_on_original"])])
-            elif k < 0.96:
+            elif k < 0.94 and any(o[0] == "copy" for o in ops):
+                ops.append(["switch"])
+            elif k < 0.97:
                 ops.append(["deepcopy"])
             else:
                 ops.append(["remove_all"])
@@ -295,11 +299,20 @@ def _run_R(case):
                 if _snapshot_R(cp, keys, comps) != snap:
                     V.vio("copy_differs", f"copy() has different occupancy than the original")
                 V.probe("copy")
+                ref_cp = {k_: (list(v_) if isinstance(v_, list) else (dict(v_) if isinstance(v_, dict) else v_))
+                          for k_, v_ in ref.items()}
                 if op[1] == "continue_on_copy":
-                    other = (res, snap)
+                    other = (res, snap, ref_cp)
                     res = cp
                 else:
-                    other = (cp, snap)
+                    other = (cp, snap, ref_cp)
+            elif op[0] == "switch":
+                # carry on with the other side of the last copy(): both sides stay live and independent
+                if other is not None:
+                    cur = (res, _snapshot_R(res, keys, comps), ref)
+                    res, _, ref = other
+                    other = cur
+                    V.probe("switched_side")
             elif op[0] == "deepcopy":
                 dc = deepcopy(res)
                 for (t, i, q) in keys:
@@ -561,11 +574,19 @@ def _run_W(case):
                 V.probe("copy")
                 if batches and any(batches.values()):
                     V.probe("copy_with_live_batch")
+                ref_cp = (dict(where), {k_: set(v_) for k_, v_ in batches.items()}, dict(loaded))
                 if op[1] == "continue_on_copy":
-                    other = (pool, s0)
+                    other = (pool, s0, ref_cp)
                     pool = cp
                 else:
-                    other = (cp, s0)
+                    other = (cp, s0, ref_cp)
+            elif op[0] == "switch":
+                # carry on with the other side of the last copy(): both sides stay live and independent
+                if other is not None:
+                    cur = (pool, snap(pool), (where, batches, loaded))
+                    pool, _, (where, batches, loaded) = other
+                    other = cur
+                    V.probe("switched_side")
             elif op[0] == "deepcopy":
                 dc = deepcopy(pool)
                 for wi, w in enumerate(dc.workers):
